@@ -370,6 +370,41 @@ def expect_error(ctx, label, exc_types, fn, info=None):
     ctx.fail("missing_exception", "%s did not raise %s" % (label, "/".join(t.__name__ for t in exc_types)), {"call": label, "info": info}, repr(r)[:200], None)
 
 
+class Keeper:
+    """result aliasing across calls: keep returned arrays with an immediate deep copy, re-check them after later calls,
+    scribble over them and see that nothing else changes"""
+
+    def __init__(self, ctx, info):
+        self.ctx, self.info, self.kept = ctx, info, []
+
+    def keep(self, label, arr):
+        if isinstance(arr, np.ndarray):
+            self.kept.append((label, arr, arr.copy()))
+            self.ctx.count("alias:kept:" + label)
+        return arr
+
+    def recheck(self, when):
+        for label, arr, cp in self.kept:
+            if arr.shape != cp.shape or not np.array_equal(arr, cp):
+                self.ctx.fail("result_overwritten_by_later_call", "the array returned by %s changed after %s" % (label, when),
+                              dict(self.info, result=label, after=when), np.asarray(arr).tolist(), cp.tolist())
+
+    def scribble(self, label=None):
+        n = 0
+        for lab, arr, cp in self.kept:
+            if (label is None or lab == label) and arr.flags.writeable:
+                arr[...] = -31337
+                n += 1
+        self.kept = [(lab, arr, arr.copy()) for lab, arr, cp in self.kept]
+        self.ctx.count("alias:scribbled", n)
+
+    def no_share(self, label, a, b, what):
+        if isinstance(a, np.ndarray) and isinstance(b, np.ndarray) and a.size and b.size and np.shares_memory(a, b):
+            self.ctx.fail("result_aliases_internal_state", "%s shares memory with %s" % (label, what), dict(self.info, result=label, shares_with=what), None, None)
+            return False
+        return True
+
+
 SHAPES_QUICK = [(1,), (3,), (2, 2), (2, 3), (3, 2), (1, 4), (3, 1), (1, 1), (5, 4), (2, 3, 4), (3, 2, 2), (4, 2, 3), (1, 3, 2),
                 (2, 3, 1), (2, 3, 2, 3), (3, 2, 1, 2)]
 SHAPES_MORE = [(5,), (3, 5), (5, 5), (4, 1), (2, 2, 2), (5, 3, 2), (3, 4, 5), (2, 2, 3, 4), (3, 2, 4, 2), (2, 1, 2, 3),
@@ -1091,6 +1126,148 @@ def run(ctx):
             ("delete_action(player out of range)", (ValueError, IndexError), lambda: g23.delete_action(2, 0)),
             ("delete_action(action out of range)", (IndexError,), lambda: g23.delete_action(0, 2))]:
         expect_error(ctx, label, excs, fn)
+
+    # ============================================================ 7. result aliasing across calls (oracle only)
+    def expect_game(g, exp, tolq_, what, info):
+        """every view of g shows the expected profile array exp (exact, or within tolq_)"""
+        try:
+            got = np.asarray(g.payoff_profile_array, dtype=float)
+            okv = got.shape == exp.shape and (np.array_equal(got, exp) if tolq_ == 0 else np.allclose(got, exp, atol=tolq_, rtol=0))
+            for i, pl in enumerate(g.players):
+                N_ = g.N
+                okv = okv and np.allclose(np.transpose(np.asarray(pl.payoff_array, dtype=float), tuple(range(N_ - i, N_)) + tuple(range(N_ - i))), exp[..., i], atol=tolq_, rtol=0)
+        except Exception as e:
+            got, okv = repr(e), False
+        if not okv:
+            ctx.fail("result_aliases_internal_state", what, info, got if isinstance(got, str) else got.tolist(), exp.tolist())
+        return okv
+    ashapes = [(3,), (2, 2), (3, 2), (1, 3), (2, 1), (2, 3, 2), (1, 2, 2)] + ([(4, 4), (2, 2, 2, 2), (3, 1, 2)] if thorough else [])
+    for nums in ashapes:
+        N = len(nums)
+        data = rand_payoffs(rng, tuple(nums) + (N,), "int").astype(float)
+        info = {"data": data, "nums": list(nums)}
+        g = NormalFormGame(data.copy())
+        K = Keeper(ctx, info)
+        ctx.case(("alias", tuple(nums), repr(data.tolist())), nontrivial=(N >= 2))
+        try:
+            stored = [p.payoff_array for p in g.players]
+            # payoff_profile_array, g[a]
+            ppa1 = K.keep("payoff_profile_array", g.payoff_profile_array)
+            ppa2 = K.keep("payoff_profile_array", g.payoff_profile_array)
+            K.no_share("payoff_profile_array", ppa1, ppa2, "the array returned by the previous call")
+            for st in stored:
+                K.no_share("payoff_profile_array", ppa1, st, "a stored payoff array")
+            profs = [tuple(rng.randrange(k) for k in nums) for _ in range(3)]
+            items = [K.keep("g[a]", np.asarray(g[a] if N > 1 else g[a[0]])) for a in profs]
+            for it_ in items:
+                for st in stored:
+                    K.no_share("g[a]", it_, st, "a stored payoff array") if it_.ndim else None
+            # payoff_vector / best_response arrays for players with opponents (for a player WITHOUT opponents payoff_vector
+            # returns the stored array itself: existing documented-by-code behaviour, recorded, not scribbled)
+            for i, pl in enumerate(g.players):
+                if N == 1:
+                    ctx.count("alias_documented:payoff_vector of a 0-opponent player is the stored payoff_array")
+                    continue
+                others = [(i + 1 + j) % N for j in range(N - 1)]
+                for rep in range(3):           # same shapes, different inputs
+                    opp = tuple(dyadic_simplex(rng, nums[q]) if rep % 2 else rng.randrange(nums[q]) for q in others)
+                    arg = opp[0] if N == 2 else opp
+                    pv = K.keep("payoff_vector", pl.payoff_vector(arg))
+                    brs = K.keep("best_response(tie_breaking=False)", pl.best_response(arg, tie_breaking=False))
+                    for st in stored:
+                        K.no_share("payoff_vector", pv, st, "a stored payoff array")
+                    K.recheck("a later payoff_vector / best_response call")
+            K.recheck("all queries")
+            K.scribble()
+            expect_game(g, data, 0, "overwriting arrays returned by payoff_profile_array / g[a] / payoff_vector / best_response changed the game", info)
+            expect_game(NormalFormGame(data.copy()), data, 0, "a fresh game is wrong after results of another game were overwritten", info)
+            # delete_action: the new game owns its arrays
+            j = max(range(N), key=lambda q: nums[q])
+            if nums[j] >= 2:
+                g2 = g.delete_action(j, 0)
+                exp2 = np.delete(data, 0, axis=j)
+                for a2 in game_arrays(g2):
+                    for st in stored:
+                        K.no_share("delete_action", a2, st, "a payoff array of the original game")
+                    a2[...] = -4242.0
+                expect_game(g, data, 0, "overwriting the payoff arrays of the game returned by delete_action changed the original game", info)
+                expect_game(g.delete_action(j, 0), exp2, 0, "delete_action is wrong after an earlier result was overwritten", info)
+                p2 = g.players[j].delete_action(0)
+                K.no_share("Player.delete_action", p2.payoff_array, stored[j], "the stored payoff array")
+            # documented sharing, recorded only
+            gs = NormalFormGame(list(g.players))
+            if all(a is b for a, b in zip(gs.players, g.players)):
+                ctx.count("alias_documented:NormalFormGame(players) shares the Player objects")
+            base = np.zeros(tuple(nums[:1]) + tuple(nums[1:]))
+            if np.shares_memory(Player(base).payoff_array, base):
+                ctx.count("alias_documented:Player(C-contiguous ndarray) does not copy")
+            # GAM round trip: players of the parsed game own separate data
+            s_ = to_gam(g)
+            gg = GAMReader.from_string(s_)
+            ga = game_arrays(gg)
+            for x in range(len(ga)):
+                for y in range(x + 1, len(ga)):
+                    K.no_share("from_gam", ga[x], ga[y], "another player's payoff array of the same parsed game")
+            ga[0][...] = -99
+            expect_game(GAMReader.from_string(s_), data, 0, "from_gam is wrong after the arrays of an earlier parse were overwritten", info)
+            if N >= 2:
+                exp_rest = np.asarray(gg.payoff_profile_array, dtype=float)[..., 1:]
+                if not np.array_equal(exp_rest, data[..., 1:]):
+                    ctx.fail("result_aliases_internal_state", "overwriting player 0's array of a parsed GAM game changed another player's payoffs", info, exp_rest.tolist(), data[..., 1:].tolist())
+            expect_game(g, data, 0, "to_gam / from_gam changed the game", info)
+        except Exception as e:
+            ctx.fail("raises", "the aliasing probe hit an exception on a valid game: %r" % (e,), info, repr(e), None)
+        # ---- polymatrix: from_nf -> to_nfg -> __setitem__ / scribble -> to_nfg
+        if N < 2:
+            continue
+        try:
+            pm0 = {(p_, q_): rand_payoffs(rng, (nums[p_], nums[q_]), "int").astype(float) for p_ in range(N) for q_ in range(N) if p_ != q_}
+            pm0_snap = {k: v.copy() for k, v in pm0.items()}
+            expP = np.zeros(tuple(nums) + (N,))
+            for a in np.ndindex(*nums):
+                for p_ in range(N):
+                    expP[a + (p_,)] = sum(pm0[(p_, q_)][a[p_], a[q_]] for q_ in range(N) if q_ != p_)
+            pinfo = {"polymatrix": {"%d,%d" % k: v for k, v in pm0_snap.items()}, "nums": list(nums)}
+            for route in ("PolymatrixGame(dict)", "from_nf"):
+                ctx.count("alias:polymatrix:" + route)
+                K.info = dict(pinfo, route=route)
+                if route == "from_nf":
+                    src = NormalFormGame(expP.copy())
+                    with warnings.catch_warnings():
+                        warnings.simplefilter("ignore")
+                        pmg = PolymatrixGame.from_nf(src)
+                    for k, M in pmg.polymatrix.items():
+                        for st in game_arrays(src):
+                            K.no_share("from_nf", M, st, "a payoff array of the game it was built from")
+                    tolp = 1e-9
+                else:
+                    pmg = PolymatrixGame(pm0, nums_actions=nums)
+                    tolp = 0
+                snap = {k: v.copy() for k, v in pmg.polymatrix.items()}
+                h1 = pmg.to_nfg()
+                h1b = pmg.to_nfg()
+                for x in game_arrays(h1):
+                    for k, M in pmg.polymatrix.items():
+                        K.no_share("to_nfg", x, M, "pm.polymatrix[%r]" % (k,))
+                    for y in game_arrays(h1b):
+                        K.no_share("to_nfg", x, y, "a payoff array of the game returned by another to_nfg() call")
+                expect_game(h1, expP, tolp, "to_nfg does not return the sums of the head-to-head payoffs", dict(pinfo, route=route))
+                a = tuple(rng.randrange(k) for k in nums)
+                h1[a] = [123.0 + q_ for q_ in range(N)]            # the caller edits the game it was given ...
+                for x in game_arrays(h1b):
+                    x[...] = -555.0                                 # ... and scribbles over another one
+                if any(not np.array_equal(pmg.polymatrix[k], snap[k]) for k in snap):
+                    ctx.fail("result_aliases_internal_state", "editing a game returned by to_nfg() (route %s) changed pm.polymatrix" % route, dict(pinfo, route=route, profile=list(a)), None, None)
+                if any(not np.array_equal(pm0[k], pm0_snap[k]) for k in pm0):
+                    ctx.fail("mutation", "PolymatrixGame changed the caller's matrices", dict(pinfo, call="PolymatrixGame", route=route), None, None)
+                expect_game(pmg.to_nfg(), expP, tolp, "to_nfg() after editing the games returned by earlier to_nfg() calls (route %s) no longer returns the original payoffs" % route,
+                            dict(pinfo, route=route, profile=list(a)))
+                if route == "from_nf":
+                    expect_game(src, expP, 0, "from_nf -> to_nfg -> __setitem__ changed the game from_nf was given", dict(pinfo, route=route))
+        except AssertionError:
+            ctx.count("alias:polymatrix:from_nf assertion (least squares noise)")
+        except Exception as e:
+            ctx.fail("raises", "the polymatrix aliasing probe hit an exception: %r" % (e,), {"nums": list(nums)}, repr(e), None)
 
     # ============================================================ 4. non-mutation around dynamics objects (observed only)
     from scipy.stats import norm
